@@ -15,7 +15,7 @@ package cache
 
 // Named frames (lists of heap / ghost patterns used in "modifies").
 //@ frame clock := G|clock G|clk G|nclk
-//@ frame log := G|cnt|logTrait.* G|arg|logTrait.* G|res|logTrait.*
+//@ frame log := G|cnt|logTrait.* G|arg|logTrait.* G|res|logTrait.* G|cnt|Logger.* G|arg|Logger.* G|res|Logger.* G|cnt|warnLogger.* G|arg|warnLogger.* G|res|warnLogger.* G|cnt|debugLogger.* G|arg|debugLogger.* G|res|debugLogger.* G|cnt|importantLogger.* G|arg|importantLogger.* G|res|importantLogger.*
 //@ frame stat := G|metric G|cnt|StatsTracker.Add G|arg|StatsTracker.Add|* G|res|StatsTracker.Add|*
 //@ frame backendread := G|cnt|ReadWriter.Read G|arg|ReadWriter.Read|* G|res|ReadWriter.Read|*
 //@ frame backendwrite := G|cnt|ReadWriter.Write G|arg|ReadWriter.Write|* G|res|ReadWriter.Write|*
@@ -1204,3 +1204,55 @@ package cache
 //@   props C14
 //@   ensures [C14.hash.get] result == gobTypesHash
 //@   pure
+
+// ---------------------------------------------------------------------------------------------------
+// http.go: gating of the HTTP transfer (C14). The Export handler dumps exactly the cache registered under the
+// requested name, and only when the caller's types hash equals this process' hash; otherwise it answers with an
+// error status and never touches a cache. query(r, k) is r.URL.Query().Get(k).
+// ---------------------------------------------------------------------------------------------------
+
+//@ def query(r, k) := urlGet(r.URL, k)
+
+//@ func (*HTTPTransfer).Export$1
+//@   props C14
+//@   replay httpgate
+//@   flag floatinf havoc
+//@   requires r != nil && rw != nil && *t != nil && r.URL != nil
+//@   requires forall n string :: has((*t).caches, n) ==> (*t).caches[n] != nil
+//@   let name := query(r, "name")
+//@   let th := query(r, "typesHash")
+//@   let allowed := name != "" && has((*t).caches, name) && th != "" && th == fmtuint(gobTypesHash, 10)
+//@   ensures [C14.export.gate] calls("WalkDumpRestorer.Dump") == (allowed ? 1 : 0)
+//@   ensures [C14.export.which] allowed ==> arg("WalkDumpRestorer.Dump", 1, 0) == (*t).caches[name]
+//@   ensures [C14.export.refuse] !allowed ==> calls("http.Error") == 1 && arg("http.Error", 1, 3) >= 400
+//@   ensures [C14.export.noerr] allowed ==> calls("http.Error") == 0
+
+// logTrait.setup picks the optional methods of a user's Logger by type assertion; which of the four log functions
+// end up non-nil is left open (any combination is considered by the callers).
+//@ func (*logTrait).setup
+//@   assumed
+//@   requires lt != nil
+//@   modifies H|logTrait|* G|alloc
+
+// importCache: exactly one Restore, on the cache it was given.
+//@ func (*HTTPTransfer).importCache
+//@   props C14
+//@   flag floatinf havoc
+//@   requires t != nil && c != nil && resp != nil
+//@   ensures [C14.importcache.once] calls("Restorer.Restore") == 1 && arg("Restorer.Restore", 1, 0) == c
+//@   modifies @log @clock G|cnt|Restorer.Restore G|arg|Restorer.Restore|* G|res|Restorer.Restore|* G|alloc new:H|*
+
+// Import: a cache is restored (importCache) only from a response with status 200 - the Export handler answers
+// 200 only after the name and the types hash matched (C14.export.gate / refuse) - and only into a cache
+// registered in this transfer; nothing else touches the caches.
+//@ func (*HTTPTransfer).Import
+//@   props C14
+//@   replay httpgate
+//@   requires t != nil && ctx != nil
+//@   requires forall n string :: has(t.caches, n) ==> t.caches[n] != nil
+//@   ensures [C14.import.gate] forall k int :: 1 <= k && k <= calls(importCache) ==> arg(importCache, k, 3).StatusCode == 200
+//@   ensures [C14.import.own] forall k int :: 1 <= k && k <= calls(importCache) ==> arg(importCache, k, 0) == t
+//@   ensures [C14.import.direct] calls("WalkDumpRestorer.Restore") == 0
+//@   loop 1 invariant [C14.import.inv] forall k int :: 1 <= k && k <= calls(importCache) ==>
+//@       arg(importCache, k, 3).StatusCode == 200 && arg(importCache, k, 0) == t && allocated(arg(importCache, k, 3))
+//@   loop 1 invariant [C14.import.inv.direct] calls("WalkDumpRestorer.Restore") == 0 && u != nil
